@@ -753,7 +753,23 @@ func runReuse(rec *vcommon.Rec, c *anyCase) (stalled bool) {
 	close(start)
 	wg.Wait()
 	physWave1 := s.eps[0].Physical()
-	// with all of them still open, two more one after the other
+	// with all of them still open: a local connection for a channel the server does not offer (it is refused, which is
+	// C03's subject; the session has nothing to do with it), then two more for the real channel, one after the other
+	if x, err := s.cl.DialRefused(); err == nil {
+		x.Write([]byte("hello?"))
+		gone := e2e.Go(func() {
+			b := make([]byte, 64)
+			for {
+				if _, e := x.Read(b); e != nil {
+					return
+				}
+			}
+		})
+		if e2e.Wait(gone) == e2e.Done {
+			rec.Stat("reuse:refused_channel_connections_made", 1)
+		}
+		x.Close()
+	}
 	var later []*connResult
 	for i := 0; i < 2; i++ {
 		later = append(later, s.connect(uint64(c.Seed)*64+uint64(c.M+i)+1, 4096, stdWait, true))
